@@ -731,6 +731,7 @@ func runC12(c *mon.Ctx) {
 	c12KeyResponses(c, w, r)
 	c12LargeBatch(c, c.Rand("large-batch"))
 	c12RealClientSeveralDocuments(c, c.Rand("real-client-docs"))
+	c12RealClientNameSpelling(c, c.Rand("real-client-names"))
 	c12RealClient(c, c.Rand("real-client"))
 }
 
@@ -1363,8 +1364,19 @@ func c12RealClientSeveralDocuments(c *mon.Ctx, r *gen.Rand) {
 				return
 			}
 			for k, pub := range expect {
-				if got, ok := res[k]; !ok || string(got.Key) != string(pub) {
+				got, ok := res[k]
+				if !ok || string(got.Key) != string(pub) {
 					c.Failf("realclient:drops-good-response:perspective:several-documents", "the key %s/%s of a genuine document is missing from (or wrong in) the result", k.ServerName, k.KeyID)
+					continue
+				}
+				// a retired key arrives with the instant it was retired at, as the document gives it (ninth seeding round,
+				// C06-S: the decoding of old_verify_keys entries lost expired_ts) - valid before that instant, never after
+				if k.KeyID == "ed25519:a0" {
+					c.Count("real_client_old_keys_looked_at")
+					if got.ExpiredTS != 1234567 || !got.WasValidAt(1234566, gmsl.StrictValiditySignatureCheck) || got.WasValidAt(1234568, gmsl.StrictValiditySignatureCheck) || got.WasValidAt(1234568, gmsl.NoStrictValidityCheck) {
+						c.Failf("realclient:old-key-expiry-lost:perspective", "the old key %s/%s, listed with expired_ts 1234567, arrives with ExpiredTS %d ValidUntilTS %d (valid at 1234566 strict: %v, at 1234568 strict: %v, lenient: %v)", k.ServerName, k.KeyID,
+							got.ExpiredTS, got.ValidUntilTS, got.WasValidAt(1234566, gmsl.StrictValiditySignatureCheck), got.WasValidAt(1234568, gmsl.StrictValiditySignatureCheck), got.WasValidAt(1234568, gmsl.NoStrictValidityCheck))
+					}
 				}
 			}
 			for k := range res {
@@ -1374,6 +1386,128 @@ func c12RealClientSeveralDocuments(c *mon.Ctx, r *gen.Rand) {
 			}
 		})
 	}
+}
+
+// c12RealClientNameSpelling: a server asked for the keys of "hs1.test" hands out the genuine, self-signed document of
+// "HS1.test" (another server name: names are compared byte by byte everywhere in the library and in the signatures
+// of events). Directly or through a notary, that document yields no key of hs1.test (ninth seeding round, C06-R). The
+// direct path also serves a document with a retired key: it arrives retired.
+func c12RealClientNameSpelling(c *mon.Ctx, r *gen.Rand) {
+	if c.Shard != 0 {
+		return
+	}
+	notary := gen.NewIdentity(r, "notary.example", "ed25519:n1")
+	upper := gen.NewIdentity(r, "HS1.test", "ed25519:v1")
+	oldKey := gen.NewIdentity(r, "hs2.test", "ed25519:old")
+	cur := gen.NewIdentity(r, "hs2.test", "ed25519:v2")
+	future := time.Now().UnixMilli() + 48*hourMs
+	sign := func(doc []byte, ids ...*gen.Identity) []byte {
+		var err error
+		for _, id := range ids {
+			if doc, err = gmsl.SignJSON(id.Server, gmsl.KeyID(id.KeyID), id.Priv, doc); err != nil {
+				panic(err)
+			}
+		}
+		return doc
+	}
+	upperDoc := sign(gen.Plain().Bytes(ref.O("server_name", ref.S("HS1.test"), "valid_until_ts", ref.I(future),
+		"verify_keys", ref.O("ed25519:v1", ref.O("key", ref.S(spec.Base64Bytes(upper.Pub).Encode()))), "old_verify_keys", ref.O())), upper, notary)
+	const retiredAt = 1600000000000
+	hs2Doc := sign(gen.Plain().Bytes(ref.O("server_name", ref.S("hs2.test"), "valid_until_ts", ref.I(future),
+		"verify_keys", ref.O("ed25519:v2", ref.O("key", ref.S(spec.Base64Bytes(cur.Pub).Encode()))),
+		"old_verify_keys", ref.O("ed25519:old", ref.O("key", ref.S(spec.Base64Bytes(oldKey.Pub).Encode()), "expired_ts", ref.I(retiredAt))))), cur, notary)
+	for _, path := range []string{"direct", "perspective"} {
+		name := "real-client:" + path + ":document-of-a-name-spelt-otherwise"
+		c.Case(name, map[string]any{"asked": "hs1.test", "document": string(upperDoc), "path": path}, func() {
+			c.Nontrivial(name)
+			rt := c12RoundTripper(func(req *http.Request) (*http.Response, error) {
+				body, status := []byte(`{"errcode":"M_NOT_FOUND"}`), 404
+				switch {
+				case strings.HasSuffix(req.URL.Path, "/key/v2/query") && path == "perspective":
+					status, body = 200, []byte(`{"server_keys":[`+string(upperDoc)+`]}`)
+				case strings.HasSuffix(req.URL.Path, "/key/v2/server") && path == "direct":
+					status, body = 200, upperDoc
+				}
+				return &http.Response{StatusCode: status, Header: http.Header{"Content-Type": []string{"application/json"}}, Body: io.NopCloser(bytes.NewReader(body)), Request: req}, nil
+			})
+			client := fclient.NewClient(fclient.WithTransport(rt))
+			reqs := map[keyReq]spec.Timestamp{{ServerName: "hs1.test", KeyID: "ed25519:v1"}: 0}
+			var res map[keyReq]keyRes
+			var ferr error
+			if path == "perspective" {
+				pf := &gmsl.PerspectiveKeyFetcher{PerspectiveServerName: "notary.example", PerspectiveServerKeys: map[gmsl.KeyID]ed25519.PublicKey{gmsl.KeyID(notary.KeyID): notary.Pub}, Client: client}
+				res, ferr = pf.FetchKeys(context.Background(), reqs)
+			} else {
+				df := &gmsl.DirectKeyFetcher{Client: client, IsLocalServerName: func(spec.ServerName) bool { return false }}
+				res, ferr = df.FetchKeys(context.Background(), reqs)
+			}
+			c.Count("real_client_fetches")
+			for k := range res {
+				if k.ServerName == "hs1.test" {
+					c.Failf("realclient:key-under-a-name-the-document-does-not-carry:"+path+":name-spelt-otherwise", "the key document of HS1.test, served for a request about hs1.test, yielded a key for hs1.test (%s path, error %v)", path, ferr)
+				}
+			}
+			// ... and a message signed by HS1.test's key under the name hs1.test does not verify through a key ring over that fetcher
+			msg, err := gmsl.SignJSON("hs1.test", "ed25519:v1", upper.Priv, []byte(`{"a":1}`))
+			if err != nil {
+				return
+			}
+			var fetcher gmsl.KeyFetcher = &gmsl.DirectKeyFetcher{Client: client, IsLocalServerName: func(spec.ServerName) bool { return false }}
+			if path == "perspective" {
+				fetcher = &gmsl.PerspectiveKeyFetcher{PerspectiveServerName: "notary.example", PerspectiveServerKeys: map[gmsl.KeyID]ed25519.PublicKey{gmsl.KeyID(notary.KeyID): notary.Pub}, Client: client}
+			}
+			ring := &gmsl.KeyRing{KeyFetchers: []gmsl.KeyFetcher{fetcher}, KeyDatabase: newMemKeyDB()}
+			out, verr := ring.VerifyJSONs(context.Background(), []gmsl.VerifyJSONRequest{{ServerName: "hs1.test", Message: msg, AtTS: spec.AsTimestamp(time.Now()), ValidityCheckingFunc: gmsl.StrictValiditySignatureCheck}})
+			c.Count("real_client_verifications")
+			if verr == nil && len(out) == 1 && out[0].Error == nil {
+				c.Failf("realclient:verifies-with-the-key-of-a-name-spelt-otherwise:"+path, "a message signed as hs1.test with the key of HS1.test verifies: the key ring took HS1.test's document for hs1.test's (%s path)", path)
+			}
+		})
+	}
+	name := "real-client:direct:retired-key"
+	c.Case(name, map[string]any{"document": string(hs2Doc)}, func() {
+		c.Nontrivial(name)
+		rt := c12RoundTripper(func(req *http.Request) (*http.Response, error) {
+			body, status := []byte(`{"errcode":"M_NOT_FOUND"}`), 404
+			if strings.HasSuffix(req.URL.Path, "/key/v2/server") {
+				status, body = 200, hs2Doc
+			}
+			return &http.Response{StatusCode: status, Header: http.Header{"Content-Type": []string{"application/json"}}, Body: io.NopCloser(bytes.NewReader(body)), Request: req}, nil
+		})
+		df := &gmsl.DirectKeyFetcher{Client: fclient.NewClient(fclient.WithTransport(rt)), IsLocalServerName: func(spec.ServerName) bool { return false }}
+		for _, strict := range []bool{true, false} {
+			for _, after := range []bool{false, true} {
+				at := spec.Timestamp(retiredAt - 1000)
+				if after {
+					at = spec.Timestamp(retiredAt + 1000)
+				}
+				check := gmsl.NoStrictValidityCheck
+				if strict {
+					check = gmsl.StrictValiditySignatureCheck
+				}
+				msg, err := gmsl.SignJSON("hs2.test", "ed25519:old", oldKey.Priv, []byte(`{"a":1}`))
+				if err != nil {
+					return
+				}
+				ring := &gmsl.KeyRing{KeyFetchers: []gmsl.KeyFetcher{df}, KeyDatabase: newMemKeyDB()}
+				out, verr := ring.VerifyJSONs(context.Background(), []gmsl.VerifyJSONRequest{{ServerName: "hs2.test", Message: msg, AtTS: at, ValidityCheckingFunc: check}})
+				c.Count("real_client_verifications")
+				if verr != nil || len(out) != 1 {
+					c.Failf("realclient:drops-good-response:direct:retired-key", "VerifyJSONs over a direct fetcher and a genuine document with a retired key: %v (%d results)", verr, len(out))
+					return
+				}
+				// a retired key is good for what was signed before it was retired - under either rule - and for nothing after
+				if ok := out[0].Error == nil; ok == after {
+					dir := "rejects-valid"
+					if ok {
+						dir = "accepts-invalid"
+					}
+					c.Failf("realclient:"+dir+":retired-key", "a message signed with a key retired at %d, dated %d (strict rule %v): verifies=%v (%v)", int64(retiredAt), int64(at), strict, ok, out[0].Error)
+				}
+			}
+		}
+	})
+	c.Floor("real_client_verifications", 4)
 }
 
 func faultOr(f string, future bool) string {
